@@ -85,8 +85,7 @@ func c19r1(c *Ctx) {
 			}
 			// the prune call is on the success side of BestIndex's ok and of the body lookup
 			pn := g.NodeContaining(call.Pos())
-			chk := f.CheckOf(bi)
-			ob.Check(f.OnlyVia(pn, chk.Succ), nil, "Store.PruneBlock is reachable when the best-chain index lookup failed")
+			ob.Check(f.OnlyAfterSuccess(bi, pn), nil, "Store.PruneBlock is reachable when the best-chain index lookup failed")
 		}
 	}
 }
@@ -100,7 +99,7 @@ func c19r2(c *Ctx) {
 		pt, ok := t.(*types.Pointer)
 		return ok && ir.IsNamed(pt.Elem(), ir.PkgPath("consensus"), "V1BlockSupplement")
 	}, isNamedT("consensus", "State"), isBasicKind(types.Bool))
-	for _, f := range r.methods {
+	for _, f := range r.methodsV {
 		g := f.Graph()
 		for _, call := range f.CallsTo(false, r.storeBlock, bap) {
 			n := g.NodeContaining(call.Pos())
@@ -117,7 +116,7 @@ func c19r2(c *Ctx) {
 			ob := c.Ob(f, "block-used-only-when-found", call.Pos())
 			if okv == nil || okv.Name() == "_" {
 				// frozen exception: the walker reads the first reverted block only to refill the pool; a zero block is harmless
-				if f == r.reorgTo {
+				if f.Base == r.reorgTo {
 					ob.OK("frozen exception: the zero block yields no transactions to re-add")
 				} else {
 					ob.Bad(nil, "the ok flag of the block lookup at %s is discarded and the block is used", c.P.Pos(call.Pos()))
@@ -126,8 +125,35 @@ func c19r2(c *Ctx) {
 			}
 			var okEdges []*cfgx.Edge
 			for _, m := range g.Nodes {
-				if m.Block != nil && m.Block.Cond == m.AST && len(m.Succs) == 2 && f.ObjOf(m.AST.(ast.Expr)) == okv {
+				if m.AST == nil || m.Block == nil || m.Block.Cond != m.AST || len(m.Succs) != 2 {
+					continue
+				}
+				w := f.ObjOf(m.AST.(ast.Expr))
+				if w == nil {
+					continue
+				}
+				if w == okv {
 					okEdges = append(okEdges, m.Succs[0])
+					continue
+				}
+				// a flag defined as a conjunction that includes the lookup's flag (`found := ok && ok2`)
+				defs := ReachingDefs(f, w, m)
+				if len(defs) != 1 || defs[0] == nil || defs[0].AST == nil {
+					continue
+				}
+				for _, wr := range f.WritesIn(defs[0].AST, false) {
+					if f.ObjOf(wr.LHS) == w && wr.RHS != nil && conjunctOf(f, wr.RHS, okv) {
+						// the lookup's flag must not have been overwritten between that definition and this test
+						fresh := true
+						for _, d := range ReachingDefs(f, okv, defs[0]) {
+							if d != n {
+								fresh = false
+							}
+						}
+						if fresh {
+							okEdges = append(okEdges, m.Succs[0])
+						}
+					}
 				}
 			}
 			bad := ""
@@ -163,6 +189,18 @@ func c19r2(c *Ctx) {
 			ob.Check(bad == "", nil, "the block obtained at %s is used at %s on a path where the lookup may have failed (pruned or unknown block): a zero block is processed instead of an error being returned", c.P.Pos(call.Pos()), bad)
 		}
 	}
+}
+
+// conjunctOf: e is v, or a conjunction one of whose operands is v.
+func conjunctOf(f *ir.Func, e ast.Expr, v types.Object) bool {
+	e = ast.Unparen(e)
+	if f.ObjOf(e) == v {
+		return true
+	}
+	if be, ok := e.(*ast.BinaryExpr); ok && be.Op == token.LAND {
+		return conjunctOf(f, be.X, v) || conjunctOf(f, be.Y, v)
+	}
+	return false
 }
 
 // isStoreProbe: node m is `x, ok := <store>.<Getter>(… blk.field …)` — a call of a
@@ -227,7 +265,7 @@ func c19r3(c *Ctx) {
 	header := c.P.Method("chain", "Store", "Header")
 	bestIndex := c.P.Method("chain", "Store", "BestIndex")
 	n := 0
-	for _, f := range r.methods {
+	for _, f := range r.methodsV {
 		if !exported(f) || f.Type.Params.NumFields() != 0 || f.Type.Results == nil || f.Type.Results.NumFields() != 1 {
 			continue
 		}
